@@ -245,8 +245,12 @@ func execValidWith(in val.V, arena *topicArena) val.V {
 				w := &scriptWriter{script: scriptOf(op.At(4))}
 				err := r.Replay(sse.Subscription{Client: w, LastEventID: lastID(op.At(2)), Topics: arena.view(op.At(3).Strs())})
 				return val.L(val.L(val.List(w.calls), val.N(errCode(err))), encState(r.VerifState(), baseTime, true))
-			default:
+			case 2:
 				r.GC()
+				return val.L(val.L(), encState(r.VerifState(), baseTime, true))
+			default:
+				// the exported configuration field is assigned on a replayer in use
+				r.GCInterval = time.Duration(op.At(2).Signed())
 				return val.L(val.L(), encState(r.VerifState(), baseTime, true))
 			}
 		})
@@ -724,9 +728,17 @@ func genFinite(c *Ctx) {
 	}
 }
 
-// valid: abstract ops additionally: GC and clock advances (applied before the op)
+// the user assigns GCInterval (an exported field) between two operations
+func setGCIOp(now, gci int64) val.V { return val.L(val.N(3), val.Z(now), val.Z(gci)) }
+
+// the values the abstract operations -2, -3, -4 assign
+var gciChoices = []int64{1, 25, 0}
+
+// valid: abstract ops additionally: GC (-1), GCInterval assignments (-2, -3, -4) and clock advances (applied before the op)
 func validOp(g *histGen, kind int, now int64, r *rng.R) val.V {
 	switch {
+	case kind <= -2:
+		return setGCIOp(now, gciChoices[-2-kind])
 	case kind == -1:
 		return val.L(val.N(2), val.Z(now))
 	case kind < opRepNewest:
@@ -812,6 +824,13 @@ func genValidHistories(c *Ctx) {
 			}
 		}
 	}
+	// GCInterval assigned between two operations: lowered to 1, raised to 25, switched off (the instant does not matter)
+	for _, o := range []int{-2, -3, -4} {
+		full = append(full, step{0, o})
+		if o != -4 {
+			reduced = append(reduced, step{0, o})
+		}
+	}
 	for _, auto := range []bool{false, true} {
 		for _, gci := range []val.V{val.L(), val.L(val.Z(0)), val.L(val.Z(1)), val.L(val.Z(25))} {
 			for length := 1; length <= maxLen; length++ {
@@ -880,6 +899,44 @@ func genValidHistories(c *Ctx) {
 			c.Emit(val.L(val.Z(ttl), val.Bool(false), val.L(val.Z(0)), val.List(vops)))
 		}
 	})
+	// directed: GCInterval changed on a replayer in use - before the first Put, after two Puts, after a collection triggered
+	// by a Put, after an explicit one - from every value to every value; then a pause of every relevant length and a Put
+	// (is its collection due under the interval in force NOW?), a resumption, another pause of the new interval and a Put
+	for _, auto := range []bool{false, true} {
+		for _, g0 := range []val.V{val.L(), val.L(val.Z(0)), val.L(val.Z(1)), val.L(val.Z(5)), val.L(val.Z(30))} {
+			for _, g1 := range []int64{0, 1, 2, 5, 30} {
+				for when := 0; when < 4; when++ {
+					for _, pause := range []int64{1, 2, 5, ttl + 1, 30, 41} {
+						g := &histGen{auto: auto}
+						vops := []val.V{}
+						now := int64(0)
+						if when == 0 {
+							vops = append(vops, setGCIOp(now, g1))
+						}
+						vops = append(vops, validOp(g, opPut0, now, nil), validOp(g, opPut2, now+1, nil))
+						now++
+						switch when {
+						case 2: // a Put late enough for any interval: it collects (unless the interval is 0)
+							now += 31
+							vops = append(vops, validOp(g, opPut0, now, nil), validOp(g, opPut0, now, nil))
+						case 3:
+							now += 3
+							vops = append(vops, validOp(g, -1, now, nil), validOp(g, opPut0, now, nil))
+						}
+						if when != 0 {
+							vops = append(vops, setGCIOp(now, g1))
+						}
+						now += pause
+						vops = append(vops, validOp(g, opPut0, now, nil), validOp(g, opRep1, now, nil))
+						now += g1
+						vops = append(vops, validOp(g, opPut0, now, nil), validOp(g, opRepNewest, now, nil), validOp(g, -1, now+ttl, nil))
+						c.Count("directed:gc-interval-changed")
+						c.Emit(val.L(val.Z(ttl), val.Bool(auto), g0, val.List(vops)))
+					}
+				}
+			}
+		}
+	}
 	// directed: "keep (almost) forever" TTLs - close to the largest Duration, 250 years
 	for _, auto := range []bool{false, true} {
 		for _, ttlv := range []int64{9223372036854775807 - 4_000_000_000_000, 250 * 365 * 24 * 3600 * 1_000_000_000, 1 << 62} {
@@ -965,6 +1022,11 @@ func genValidHistories(c *Ctx) {
 			now += adv
 			var k int
 			switch x := c.R.Intn(100); {
+			case x < 3:
+				// the interval is changed: switched off, the smallest, a fraction / a multiple of the TTL
+				vops[j] = setGCIOp(now, []int64{0, 1, ttlv / 4, ttlv / 2, ttlv, ttlv * 3}[c.R.Intn(6)])
+				c.Count("random:op:set-gc-interval")
+				continue
 			case x < 12:
 				k = -1
 			case burst == 0 && x < 80:
